@@ -38,6 +38,10 @@ def enumerate_states(tier):
             for mixed in ((False, True) if mode not in ("fn",) else (False,)):
                 states.append(dict(key="s_%s_%s_%s_%s_%s%s" % (mode, ret, "ms" if ms else "send", fl[:2], body, "_mix" if mixed else ""), mode=mode, ret=ret,
                                    maybe_send=ms, flavour=fl, body=body, mixed=mixed))
+            if mode in ("trait_self", "trait_ref") and not (mode == "trait_ref" and ret == "generic"):
+                # the async method is PROVIDED by the trait (default body) and not overridden by the application
+                states.append(dict(key="s_%s_%s_%s_%s_%s_prov" % (mode, ret, "ms" if ms else "send", fl[:2], body), mode=mode, ret=ret,
+                                   maybe_send=ms, flavour=fl, body=body, mixed=False, provided=True))
     return states, len(states) * 2, dict(modes=MODES, returns=list(RETS))
 
 
@@ -81,17 +85,31 @@ def render(s):
         L.append("    #[::entrait::entrait(%s)]" % opt.strip(", "))
         if at:
             L.append("    " + atattr)
-        L.append("    pub trait Tr { %s%s; }" % (MIXD, fn_sig("m", r, "&self", vis="")))
-        if at:
-            L.append("    " + atattr)
-        L.append("    impl Tr for App { %s%s %s }" % (MIXI, fn_sig("m", r, "&self", vis=""), body_of(s, r["tval"])))
+        if s.get("provided"):
+            # the default body cannot name fields of Self: it goes through a required accessor
+            # (a provided body that uses `&self` across an await needs `Self: Sync` for its future to be Send)
+            L.append("    pub trait Tr: ::core::marker::Sync { fn num_ref(&self) -> &i64; %s %s }" % (fn_sig("m", r, "&self", vis=""), body_of(s, r["tval"].replace("self.num", "*self.num_ref()").replace("&*self.num_ref()", "self.num_ref()"))))
+            if at:
+                L.append("    " + atattr)
+            L.append("    impl Tr for App { fn num_ref(&self) -> &i64 { &self.num } }")
+        else:
+            L.append("    pub trait Tr { %s%s; }" % (MIXD, fn_sig("m", r, "&self", vis="")))
+            if at:
+                L.append("    " + atattr)
+            L.append("    impl Tr for App { %s%s %s }" % (MIXI, fn_sig("m", r, "&self", vis=""), body_of(s, r["tval"])))
     elif mode == "trait_ref":
         L.append("    #[::entrait::entrait(delegate_by = ref%s)]" % opt)
         L.append("    " + atattr)
-        L.append("    pub trait Tr: ::core::marker::Sync + 'static { %s%s; }" % (MIXD, fn_sig("m", r, "&self", vis="")))
-        L.append("    pub struct P { pub num: i64 }")
-        L.append("    " + atattr)
-        L.append("    impl Tr for P { %s%s %s }" % (MIXI, fn_sig("m", r, "&self", vis=""), body_of(s, r["tval"])))
+        if s.get("provided"):
+            L.append("    pub trait Tr: ::core::marker::Sync + 'static { fn num_ref(&self) -> &i64; %s %s }" % (fn_sig("m", r, "&self", vis=""), body_of(s, r["tval"].replace("self.num", "*self.num_ref()").replace("&*self.num_ref()", "self.num_ref()"))))
+            L.append("    pub struct P { pub num: i64 }")
+            L.append("    " + atattr)
+            L.append("    impl Tr for P { fn num_ref(&self) -> &i64 { &self.num } }")
+        else:
+            L.append("    pub trait Tr: ::core::marker::Sync + 'static { %s%s; }" % (MIXD, fn_sig("m", r, "&self", vis="")))
+            L.append("    pub struct P { pub num: i64 }")
+            L.append("    " + atattr)
+            L.append("    impl Tr for P { %s%s %s }" % (MIXI, fn_sig("m", r, "&self", vis=""), body_of(s, r["tval"])))
         L.append("    pub struct RApp { pub p: P }")
         L.append("    impl ::core::convert::AsRef<dyn Tr> for RApp { fn as_ref(&self) -> &(dyn Tr + 'static) { &self.p } }")
     else:
@@ -213,7 +231,7 @@ def evaluate(states, report, tier):
             if sig in done:
                 continue
             done.add(sig)
-            tags = {"mode:" + s["mode"], "ret:" + s["ret"], "maybe_send" if s["maybe_send"] else "send", "flavour:" + s["flavour"], "body:" + s["body"], "mixed" if s.get("mixed") else "all-async"}
+            tags = {"mode:" + s["mode"], "ret:" + s["ret"], "maybe_send" if s["maybe_send"] else "send", "flavour:" + s["flavour"], "body:" + s["body"], "mixed" if s.get("mixed") else "all-async", "provided" if s.get("provided") else "required"}
             report.violation(s["key"], tags, sig, detail, state=s, source=engine.standalone_source(u), meta=dict(mode="run"))
 
 
